@@ -44,6 +44,10 @@ def unhx(h):
 
 KEYS = ['a', 'b', 'c', 'n', '', 'кл']
 VALS = ['x', 'y', 't1', 'hello', '', 'ü€', '\U0001f600']
+# typed values; each family is a set of values of DIFFERENT types that Qt5's loose QVariant::operator== tends to call equal
+FAMILIES = [['i~1', hx('1'), 'b~1', 'f~2', 'y~31'], ['i~0', hx('0'), 'b~0', 'f~0', 'y~30'], [hx('abc'), 'y~616263'],
+            ['i~-5', hx('-5'), 'f~-10'], [hx('true'), 'b~1'], [hx('1.5'), 'f~3'], [hx(''), 'y~'], ['i~42', hx('42'), 'f~84', 'y~3432']]
+TYPED = sorted({v for f in FAMILIES for v in f} | {'i~7', 'i~-2147483648', 'f~1', 'y~00ff'})
 TAGS = ['t1', 't2', 'g', '', 'é']
 SUBS = ['t1', 'g', 'hel', 'zz', 'x', '', ':']
 TEXTS = ['hello', 'hello', 'bye', 'x', 't1msg', '', 'hä€', 'g:t1', 'a\U0001f600b']
@@ -92,17 +96,137 @@ def split_case(line):
     return parse(t.split()), m.split()
 
 
-class Gen:
+# ---- structural edits between messages.  The generator applies every edit to its own copy of the tree (with the
+# kinds of the pipelines, which the model does not distinguish) so that later edits address existing pipelines of the
+# right C++ class; the MODEL's apply_edit stays the specification - a slip here shows as !ERR of the harness.
+CLS = {'as': 'A', 'am': 'A', 'ac': 'A', 'q': 'A', 'ft': 'F', 'ff': 'F', 'fc': 'F', 'fh': 'F', 'fy': 'F', 'd': 'F', 'l': 'F',
+       'mt': 'M', 'ma': 'M', 'mn': 'M', 'me': 'M', 's': 'S', 'p': 'G', 'gs': 'G', 'gr': 'G', 'gf': 'G', 'gc': 'G'}
+
+
+def node_class(n):
+    if n[0] == 'P': return 'P'
+    if n[0] == 'Z': return None
+    return CLS[n[1].split(':')[0]]
+
+
+def _find_first(l, cs):
+    for i, x in enumerate(l):
+        if node_class(x) in cs: return i
+    return len(l)
+
+
+def _after_last(l, cs):
+    r = 0
+    for i, x in enumerate(l):
+        if node_class(x) in cs: r = i + 1
+    return r
+
+
+def sorted_insert(l, n):
+    c = node_class(n)
+    if c == 'A':
+        fr = _find_first(l, 'FMSP'); l.insert(_after_last(l[:fr], 'A'), n)
+    elif c == 'F':
+        fr = _find_first(l, 'MSP'); l.insert(_after_last(l[:fr], 'AF'), n)
+    elif c == 'M':
+        l[:] = [x for x in l if node_class(x) != 'M']
+        ll = _after_last(l, 'AF'); l.insert(ll + _find_first(l[ll:], 'SP'), n)
+    elif c == 'S':
+        ll = _after_last(l, 'AFMS'); l.insert(ll + _find_first(l[ll:], 'P'), n)
+    else:
+        l.append(n)
+
+
+def pipes_of(nodes, pre=()):
+    """(path, kind, list) of every pipeline of the tree, the root first"""
+    if pre == ():
+        yield (), 'root', nodes
+    for i, n in enumerate(nodes):
+        if n[0] == 'P':
+            yield pre + (i,), n[1], n[2]
+            yield from pipes_of(n[2], pre + (i,))
+
+
+def copy_tree(nodes):
+    return [('P', n[1], copy_tree(n[2])) if n[0] == 'P' else n for n in nodes]
+
+
+def _oid_of(n):
+    return int(n[1].split(':')[1]) if n[0] == 'L' else None
+
+
+class _GenEdits:
+    def gen_edits(self, tree, msgs):
+        """insert 1-3 bursts of edits between the messages (at least one message before the first burst in most
+        cases and always one after the last)"""
+        rng = self.rng
+        cur = copy_tree(tree)
+        if len(msgs) < 2:
+            msgs = msgs + [msgs[-1]] if rng.random() < 0.5 else msgs + ['%d:%s:n:' % (rng.randrange(5), hx(rng.choice(TEXTS)))]
+        cuts = sorted(set(rng.randint(0 if rng.random() < 0.15 else 1, len(msgs) - 1) for _ in range(rng.randint(1, 3))))
+        out = []
+        for i, m in enumerate(msgs):
+            if i in cuts:
+                for _ in range(rng.randint(1, 3)):
+                    e = self.one_edit(cur)
+                    if e: out.append(e)
+            out.append(m)
+        self.feat.add('history_with_edits')
+        return out
+
+    def edit_leaf(self, typed):
+        for _ in range(20):
+            n = self.leaf(False)
+            if n[0] != 'L': continue
+            if typed and node_class(n) == 'G': continue
+            return n
+        return ('L', 's:%d' % self.fresh())
+
+    def one_edit(self, cur):
+        rng = self.rng
+        pipes = list(pipes_of(cur))
+        path, kind, lst = rng.choice(pipes) if rng.random() < 0.6 else pipes[0]
+        simple = kind in ('root', '(', '(!')
+        typed_ok = simple and not any(n[0] == 'Z' for n in lst)
+        ops = ['a'] * 5 + ['r'] * 3 + ['c', 'n', 'ap']
+        if typed_ok: ops += ['t'] * 8 + ['k'] * 4 + ['tp']
+        op = rng.choice(ops)
+        pre = '@%s@' % '/'.join(map(str, path))
+        self.feat.add('edit_' + op + ('_on_child' if path else '_on_root'))
+        if op == 'a':
+            if rng.random() < 0.05: return pre + 'a@z'
+            n = self.edit_leaf(False); lst.append(n); return pre + 'a@' + n[1]
+        if op == 't':
+            if rng.random() < 0.04: return pre + 't@z'
+            n = self.edit_leaf(True); sorted_insert(lst, n); return pre + 't@' + n[1]
+        if op in ('ap', 'tp'):
+            k = rng.choice(['(', '(-', '(+'] + (['(!'] if simple and op == 'ap' else []))
+            lst.append(('P', k, [])); return pre + ('a@' if op == 'ap' else 't@') + k
+        if op == 'n':
+            lst.append(('Z',)); return pre + 'n'
+        if op == 'c':
+            del lst[:]; return pre + 'c'
+        if op == 'k':
+            c = rng.choice('AFMSSP' if rng.random() < 0.8 else 'AFMSP')
+            lst[:] = [n for n in lst if node_class(n) != c]; return pre + 'k@' + c
+        here = [_oid_of(n) for n in lst if n[0] == 'L']
+        o = rng.choice(here) if here and rng.random() < 0.85 else rng.randint(1, max(self.oid, 1))
+        lst[:] = [n for n in lst if _oid_of(n) != o]
+        return pre + 'r@%d' % o
+
+
+class Gen(_GenEdits):
     def __init__(self, rng):
         self.rng = rng
 
-    def new_case(self, max_depth=5, max_width=6, accepting=False):
+    def new_case(self, max_depth=5, max_width=6, accepting=False, edits=False):
         self.accepting = accepting      # no rejecting leaf at all: feeds the inline (unscoped persists) law
         self.oid = 0
         self.shared = {}        # pool name -> token of a shared built-in object
         self.made = []          # tokens of leaves made so far (for re-insertion of the same object)
         self.feat = set()
         self.pending_read = None
+        self.simple_here = True
         tree = self.gen_list(0, max_depth, max_width, False, True)
         rng = self.rng
         msgs = []
@@ -113,8 +237,10 @@ class Gen:
                 self.feat.add('msg_preformatted')
             a = ''
             if rng.random() < 0.2:
-                a = ','.join('%s.%s' % (hx(rng.choice(KEYS)), hx(rng.choice(VALS))) for _ in range(rng.randint(1, 2)))
+                a = ','.join('%s.%s' % (hx(rng.choice(KEYS)), self.val()) for _ in range(rng.randint(1, 2)))
             msgs.append('%d:%s:%s:%s' % (rng.randrange(5), hx(rng.choice(TEXTS)), f, a))
+        if edits:
+            msgs = self.gen_edits(tree, msgs)
         return tree, msgs
 
     def deep_case(self):
@@ -122,7 +248,7 @@ class Gen:
         a probe + sink at the bottom and a probe after every level on the way up"""
         rng = self.rng
         self.accepting = True
-        self.oid = 0; self.shared = {}; self.made = []; self.feat = {'deep_chain'}; self.pending_read = None
+        self.oid = 0; self.shared = {}; self.made = []; self.feat = {'deep_chain'}; self.pending_read = None; self.simple_here = True
         depth = rng.randint(31, 48)
         kinds, simple = [], True
         for _ in range(depth):
@@ -151,6 +277,53 @@ class Gen:
     def key(self):
         return hx(self.rng.choice(KEYS))
 
+    def val(self):
+        """an attribute value token: mostly a string, otherwise int / bool / double / byte array"""
+        rng = self.rng
+        if rng.random() < 0.3:
+            self.feat.add('typed_value')
+            return rng.choice(TYPED)
+        return hx(rng.choice(VALS))
+
+    def setter(self, k, v, via=None):
+        """a leaf writing value token v to key k (hex) through updateAttributes (as/am) or setAttribute (gs)"""
+        rng = self.rng
+        via = via or rng.choice(['as', 'gs', 'gs', 'am'])
+        o = self.fresh()
+        self.feat.add('typed_write_via_' + via)
+        if via == 'as': return ('L', 'as:%d:%s:%s' % (o, k, v))
+        if via == 'gs': return ('L', 'gs:%d:%s:%s:1' % (o, k, v))
+        others = [x for x in rng.sample(KEYS, rng.randint(0, 2)) if hx(x) != k]
+        pairs = ['%s.%s' % (hx(x), self.val()) for x in others] + ['%s.%s' % (k, v)]
+        rng.shuffle(pairs)
+        return ('L', 'am:%d:%s' % (o, ','.join(pairs)))
+
+    def loose_motif(self, out):
+        """a key written with one type, later overwritten with a loosely-equal value of ANOTHER type - through
+        setAttribute or an attribute handler, in the same list or inside a scoped / unscoped child - then observed"""
+        rng = self.rng
+        fam = rng.choice(FAMILIES)
+        v1, v2 = rng.sample(fam, 2)
+        k = self.key()
+        out.append(self.setter(k, v1))
+        if rng.random() < 0.25:
+            out.append(self.leaf(False))
+        second = [self.setter(k, v2)]
+        if rng.random() < 0.7:
+            second.append(('L', '%s:%d' % (rng.choice('sp'), self.fresh())))
+        r = rng.random()
+        if r < 0.55:
+            kind = rng.choice(['(', '(-', '(+', '(!'] if self.simple_here else ['(', '(-', '(+'])
+            if rng.random() < 0.3:
+                second.insert(0, ('L', 'p:%d' % self.fresh()))
+            out.append(('P', kind, second))
+            self.feat.add('loose_overwrite_in_' + ('scoped' if kind in ('(+', '(!') else 'unscoped') + '_child')
+        else:
+            out += second
+            self.feat.add('loose_overwrite_same_list')
+        out.append(('L', '%s:%d' % (rng.choice('sp'), self.fresh())))
+        self.feat.add('loose_equal_overwrite')
+
     def many(self, o, must=None):
         """multi-key attribute handler: 2-4 distinct keys (optionally including `must`), rarely 0/1 or a repeated key"""
         rng = self.rng
@@ -162,7 +335,7 @@ class Gen:
         elif rng.random() < 0.1:
             ks.append(rng.choice(ks))
         self.feat.add('multi_key_attr_handler')
-        return 'am:%d:%s' % (o, ','.join('%s.%s' % (hx(k), hx(rng.choice(VALS + ['new']))) for k in ks))
+        return 'am:%d:%s' % (o, ','.join('%s.%s' % (hx(k), self.val() if rng.random() < 0.8 else hx('new')) for k in ks))
 
     def override_motif(self, out):
         """a key set by an earlier handler, then a later handler returning MORE entries than the message
@@ -199,7 +372,7 @@ class Gen:
             return ('L', self.shared[slot])
         o = self.fresh()
         r = lambda: int(self.accepting or rng.random() < 0.75)
-        if k == 'as': t = 'as:%d:%s:%s' % (o, self.key(), hx(rng.choice(VALS)))
+        if k == 'as': t = 'as:%d:%s:%s' % (o, self.key(), self.val())
         elif k == 'am': t = self.many(o)
         elif k == 'ac': t = 'ac:%d:%s' % (o, self.key())
         elif k in ('ft', 'ff', 'mn', 'me', 's', 'p'): t = '%s:%d' % (k, o)
@@ -208,7 +381,7 @@ class Gen:
         elif k == 'fy': t = 'fy:%d:%d' % (o, rng.randrange(5))
         elif k == 'mt': t = 'mt:%d:%s' % (o, hx(rng.choice(TAGS)))
         elif k == 'ma': t = 'ma:%d:%s:%s' % (o, hx(rng.choice(TAGS)), self.key())
-        elif k == 'gs': t = 'gs:%d:%s:%s:%d' % (o, self.key(), hx(rng.choice(VALS)), r())
+        elif k == 'gs': t = 'gs:%d:%s:%s:%d' % (o, self.key(), self.val(), r())
         elif k == 'gr': t = 'gr:%d:%s:%d' % (o, self.key(), r())
         elif k == 'gf': t = 'gf:%d:%s:%d' % (o, hx(rng.choice(TAGS)), r())
         else: t = 'gc:%d:%d' % (o, r())
@@ -230,9 +403,15 @@ class Gen:
             self.feat.add('set_before_scoped_child')
         if rng.random() < 0.15:
             self.override_motif(out)
+        if rng.random() < 0.1:
+            self.simple_here = simple_parent
+            self.loose_motif(out)
         ch = self.gen_list(depth + 1, max_depth, max_width, scoped, kind in ('(', '(!'))
         if rng.random() < 0.15:
             self.override_motif(ch)
+        if rng.random() < 0.12:
+            self.simple_here = kind in ('(', '(!')
+            self.loose_motif(ch)
         if rng.random() < 0.6:                  # probe = first thing the child runs
             ch.insert(0, ('L', 'p:%d' % self.fresh()))
         if scoped and rng.random() < 0.5:       # something set inside that a later sibling could read
@@ -263,6 +442,9 @@ class Gen:
         out = []
         if depth == 0 and rng.random() < 0.2:
             self.override_motif(out)
+        if depth == 0 and rng.random() < 0.2:
+            self.simple_here = simple_parent
+            self.loose_motif(out)
         for _ in range(rng.randint(0, max_width)):
             if rng.random() < 0.27 and depth < max_depth:
                 self.gen_child(out, depth, max_depth, max_width, simple_parent)
@@ -342,15 +524,21 @@ class Runner:
         same events for the leading messages in which no handler function returned false"""
         _, inl, _ = vlib.run_lines(self.model, lines, ['inline'])
         lines2, idx = [], []
+        npre = {}
         for i, (ln, t) in enumerate(zip(lines, inl)):
             if t.startswith('!ERR') or impl_out[i].startswith('!'):
                 continue
-            lines2.append(t.strip() + ' |' + ln.split('|')[1]); idx.append(i)
+            ms = ln.split('|')[1].split()
+            k = next((j for j, x in enumerate(ms) if x.startswith('@')), len(ms))    # only the messages before the first edit
+            if k == 0:
+                continue
+            npre[i] = k
+            lines2.append(t.strip() + ' |' + ' '.join(ms[:k])); idx.append(i)
         _, out2, _ = self.impl_out(lines2)
         out2 += [''] * (len(lines2) - len(out2))
         bad, compared = {}, 0
         for i, l2, o2 in zip(idx, lines2, out2):
-            a, b = impl_out[i].split('|'), o2.split('|')
+            a, b = impl_out[i].split('|')[:npre[i]], o2.split('|')
             for j, ta in enumerate(a):
                 if any(e.startswith('x') and e.endswith('.0') for e in ta.split(';')):
                     break
@@ -432,13 +620,21 @@ def shrink_case(tree, msgs, fails, budget=600):
 def readable(tokens):
     """tokens with their hex string fields decoded"""
     out = []
-    nhex = {'as': 2, 'ac': 1, 'fc': 1, 'fh': 1, 'mt': 1, 'ma': 2, 'gs': 2, 'gr': 1, 'gf': 1, 'q': 1}
+    nhex = {'as': 1, 'ac': 1, 'fc': 1, 'fh': 1, 'mt': 1, 'ma': 2, 'gs': 1, 'gr': 1, 'gf': 1, 'q': 1}
+    rv = lambda v: v if '~' in v else repr(unhx(v))      # typed value token: i~ int, b~ bool, f~ double (halves), y~ bytes
     for t in tokens:
+        if t.startswith('@'):
+            e = t.split('@')
+            if len(e) > 3 and ':' in e[3]:
+                e[3] = readable([e[3]])
+            out.append('@'.join(e)); continue
         p = t.split(':')
         for i in range(2, 2 + nhex.get(p[0], 0)):
             p[i] = repr(unhx(p[i]))
+        if p[0] in ('as', 'gs'):
+            p[3] = rv(p[3])
         if p[0] == 'am':
-            p[2] = '{' + ', '.join('%r: %r' % tuple(unhx(x) for x in kv.split('.')) for kv in p[2].split(',') if kv) + '}'
+            p[2] = '{' + ', '.join('%r: %s' % (unhx(kv.split('.')[0]), rv(kv.split('.')[1])) for kv in p[2].split(',') if kv) + '}'
 
         out.append(':'.join(p))
     return ' '.join(out)
@@ -476,7 +672,7 @@ def run():
     n_gen = 100000 if thorough else 6000
     for i in range(n_gen):
         small = i % 5 == 0
-        t, m = g.new_case(3 if small else 5, 3 if small else 6, accepting=(i % 6 == 1))
+        t, m = g.new_case(3 if small else 5, 3 if small else 6, accepting=(i % 6 == 1), edits=(i % 3 == 2))
         cases.append((t, m))
         for f in g.feat:
             feats[f] = feats.get(f, 0) + 1
@@ -541,7 +737,10 @@ def run():
                  {'kind': kind, 'law': kind, 'case': ln, 'tree_readable': readable(render(t)), 'messages': m,
                   'implementation': o, 'model': mo, 'detail': detail[1] if detail else verd[i][1],
                   'cases_falsifying_this_law': sum(1 for j in falsified if verd[j][0] == kind),
-                  'legend': 'x<obj>.<ret> function of object ran and returned; d<obj>.<s|p>.<shown>.<F|U>.<attrs>.<raw> delivery to sink/probe; e.<...> message after the root returned; strings are hex UTF-16'},
+                  'steps_readable': readable(m),
+                  'legend': 'x<obj>.<ret> function of object ran and returned; d<obj>.<s|p>.<shown>.<F|U>.<attrs>.<raw> delivery to sink/probe; e.<...> message after the root returned; strings are hex UTF-16; '
+                            'attribute values s<hex> QString, i<n> int, b<0|1> bool, f<n> double n/2, y<hex> QByteArray; @<path>@<op>@<arg> = edit of the pipeline at <path> before the next message '
+                            '(a append/fluent, t typed SortedPipeline call, r remove object, c clear, k clear class, n null entry)'},
                  kind=kind)
     if dis:
         i = min(dis, key=lambda i: len(lines[i]))
@@ -552,7 +751,17 @@ def run():
     evs = [events_of(o) for o in out_i]
     deliveries = sum(1 for es in evs for e in es if e.startswith('d'))
     rejections = sum(1 for es in evs for e in es if e.startswith('x') and e.endswith('.0'))
-    msgs_total = sum(len(m) for _, m in cases)
+    msgs_total = sum(1 for _, m in cases for x in m if not x.startswith('@'))
+    edits_total = sum(1 for _, m in cases for x in m if x.startswith('@'))
+    edit_ops = {}
+    for _, m in cases:
+        seen_msg = False
+        for x in m:
+            if x.startswith('@'):
+                k = x.split('@')[2] + ('_after_a_message' if seen_msg else '_before_first_message')
+                edit_ops[k] = edit_ops.get(k, 0) + 1
+            else:
+                seen_msg = True
     nontriv = {lines[i] for i in range(len(lines))
                if any(n[0] == 'P' for n in cases[i][0]) and any(e.startswith('d') for e in evs[i])}
     dh, sh = {}, {}
@@ -563,8 +772,11 @@ def run():
         'evaluations': len(lines), 'distinct_nontrivial': len(nontriv), 'distinct': len(set(lines)),
         'rule': 'random handler trees (depth <= 5, width <= 6 + injected motifs: probe first in / right after a child, setter before a scoped child, '
                 'attribute set inside a scoped child + later sibling reading it, rejection inside a child + sink after it, null entries, shared objects; plus a few chains of 30-48 nested pipelines) '
-                'x 1..6 messages (repeated texts, pre-formatted, pre-attributed); non-trivial = has a nested pipeline and at least one delivery',
-        'corpus_cases': n_corpus, 'deep_chain_cases': n_deep, 'messages': msgs_total, 'deliveries_recorded': deliveries, 'rejections_recorded': rejections,
+                'x 1..6 messages (repeated texts, pre-formatted, pre-attributed with typed values); attribute values of five types with overwrites of a key by a loosely-equal value of another type '
+                '(setAttribute / attribute handler, same list / scoped / unscoped child); a third of the cases are histories with 1-3 bursts of structural edits between messages '
+                '(append, operator<<, fluent, typed SortedPipeline calls, remove, clear, clear class, null entry, new child pipelines; on the root and on nested pipelines); non-trivial = has a nested pipeline and at least one delivery',
+        'corpus_cases': n_corpus, 'deep_chain_cases': n_deep, 'messages': msgs_total, 'edits': edits_total, 'edit_ops': edit_ops,
+        'cases_with_edits': sum(1 for _, m in cases if any(x.startswith('@') for x in m)), 'deliveries_recorded': deliveries, 'rejections_recorded': rejections,
         'disagreements_model_vs_impl': len(dis), 'oracle_messages_evaluated_on_impl': sum(len(d) for d in digits),
         'oracle_falsified_cases': len(falsified), 'inline_metamorphic_messages_compared': inl_compared,
         'inline_metamorphic_mismatches': len(inl_bad), 'generator_features': feats,
